@@ -4,6 +4,7 @@ package vval
 
 import (
 	"context"
+	"os"
 	"encoding/hex"
 	"fmt"
 	"math/rand"
@@ -26,6 +27,27 @@ func Register() {
 	}})
 }
 
+// limiter reports at most 3 violations per key (with full witness) and counts the rest, so that one defect hit by many
+// generated cases does not flood the event log (the rig suppresses witnesses after 200 violations).
+type limiter struct {
+	c    *rig.Ctx
+	seen map[string]int
+	name string
+}
+
+func newLimiter(c *rig.Ctx, counter string) *limiter {
+	return &limiter{c: c, seen: map[string]int{}, name: counter}
+}
+
+func (l *limiter) Violation(key, what string, witness any) {
+	l.seen[key]++
+	if l.seen[key] <= 3 {
+		l.c.Violation(key, what, witness)
+		return
+	}
+	l.c.Count(l.name, 1)
+}
+
 func sign(x int) int {
 	switch {
 	case x < 0:
@@ -45,7 +67,7 @@ func clip(b []byte) string {
 }
 
 func clipS(s string) string {
-	if len(s) <= 200 {
+	if len(s) <= 200 || os.Getenv("VERIF_VVAL_FULL") != "" {
 		return s
 	}
 	return fmt.Sprintf("%s ...(%d bytes)... %s", s[:120], len(s), s[len(s)-60:])
